@@ -23,12 +23,19 @@ def expr(ch: Choices, vs: list[str], depth: int = 0) -> str:
         c = ch.draw(3, "k8")
         if c == 0:
             return f"({ch.pick(vs, 'walrus_t')} := {expr(ch, vs, depth + 1)})"
-        it = ch.pick(("i", "j"), "comp_var")
+        # the comprehension variable may shadow an outer variable - also one that the
+        # comprehension itself reads (in its iterable or in an earlier generator)
+        it = ch.pick(("i", "j") + tuple(vs), "comp_var")
         el = f"{it} + {ch.pick(vs, 'comp_use')}"
         flt = f" if {ch.pick(vs, 'comp_cond')} < {it}" if ch.draw(2, "comp_if") else ""
+        gens = f"for {it} in range({ch.pick(vs, 'comp_n')})"
+        if ch.draw(3, "comp_two_gens") == 0:
+            it2 = ch.pick(("j", "k") + tuple(vs), "comp_var2")
+            gens += f" for {it2} in range({ch.pick([it] + vs, 'comp_n2')})"
+            el += f" + {it2}"
         if c == 1:
-            return f"[{el} for {it} in range({ch.pick(vs, 'comp_n')}){flt}]"
-        return f"array({el} for {it} in range(3))"
+            return f"[{el} {gens}{flt}]"
+        return f"array({el} for {it} in range({ch.pick(['3'] + vs, 'arr_n')}))"
     return f"f({expr(ch, vs, depth + 1)})"
 
 
